@@ -50,7 +50,9 @@ func (l *Line) Insert(pos int, chars ...rune) {
 
 	switch {
 	case l.Len() == 0:
-		*l = chars
+		// The line must own its storage: the characters might be a kill ring
+		// entry or a register, which later edits of the line must not change.
+		*l = append(Line(nil), chars...)
 	case pos < l.Len():
 		forward := string((*l)[pos:])
 		cut := string(append((*l)[:pos], chars...))
